@@ -30,7 +30,8 @@ CONSTANTS MaxN,       \* model checking: container sizes 0..MaxN
           WriteVals,  \* model checking: element values written through an iterator
           EmitOps     \* S->C: operations whose transitions are written out as JSON (see Emit)
 
-VARIABLES cfg,    \* [ra, ext, mut, std]: random access? size_t overloads? assignable elements? usable with std::iterator_traits?
+VARIABLES cfg,    \* [ra, ext, mut, std, dc, stp]: random access? size_t overloads? assignable elements? usable with
+                  \* std::iterator_traits? default-constructible? has the equal()/less_than() members of xstepping_iterator?
           step,   \* stride of the iterator (>= 1)
           n,      \* number of elements the iterator range [begin(), end()) covers
           under,  \* the underlying element sequence; Len(under) = n * step; an element is a tuple of integers
@@ -52,6 +53,22 @@ InD(i) == i \in 0..(n - 1)         \* a dereferenceable one
 Elem(i) == under[i * step + 1]     \* the element at position i (0-based)
 Elems == [i \in 1..n |-> under[(i - 1) * step + 1]]
 Rev(s) == [i \in 1..Len(s) |-> s[Len(s) + 1 - i]]
+Slice(i, j) == [x \in 1..(j - i) |-> Elem(i + x - 1)]          \* the elements of the iterator range [i, j), i <= j
+
+(* elements are tuples of integers, all of one length; the order used by the comparator the      *)
+(* harness hands to std::sort / std::lower_bound is the lexicographic one                         *)
+TupLt(a, b) == \E i \in 1..Len(a) : a[i] < b[i] /\ \A j \in 1..(i - 1) : a[j] = b[j]
+TupLe(a, b) == a = b \/ TupLt(a, b)
+IsSorted(s) == \A i \in 1..(Len(s) - 1) : TupLe(s[i], s[i + 1])
+(* the sorted rearrangement of s: position i holds the element e with #{< e} < i <= #{<= e}      *)
+SortedSeq(s) == [i \in 1..Len(s) |->
+                 CHOOSE e \in {s[j] : j \in 1..Len(s)} :
+                    /\ Cardinality({j \in 1..Len(s) : TupLt(s[j], e)}) < i
+                    /\ i <= Cardinality({j \in 1..Len(s) : TupLe(s[j], e)})]
+(* first position in [i, j) whose element satisfies P, else j *)
+FirstIn(i, j, P(_)) == IF \E x \in i..(j - 1) : P(Elem(x))
+                         THEN CHOOSE x \in i..(j - 1) : P(Elem(x)) /\ \A y \in i..(x - 1) : ~P(Elem(y))
+                         ELSE j
 
 IPlus(i, k)     == i + k           \* it + k, it += k, it + size_t(k)
 IPlusLeft(k, i) == k + i           \* k + it, size_t(k) + it
@@ -142,6 +159,46 @@ Write(k, v)         == cfg.mut /\ InD(Pos(k)) /\
 IndexWrite(k, d, v) == cfg.mut /\ cfg.ra /\ InD(Pos(k) + d) /\
                        Do("IndexWrite", k, [k |-> d, v |-> v], p, q, [under EXCEPT ![(Pos(k) + d) * step + 1] = v], Void)
 
+(* ---- std algorithms over the range [it_k, it_other): the iterator laws composed ---- *)
+(* Enabled only for a valid range (it_k <= it_other).  The harness hands every algorithm that    *)
+(* compares elements a predicate / comparator on the element tuples, so no operator== or         *)
+(* operator< of the element types is involved.                                                    *)
+Lo(k) == Pos(k)
+Hi(k) == Pos(Other(k))
+RangeOK(k) == Pos(k) <= Pos(Other(k))
+StdCopy(k)         == cfg.std /\ RangeOK(k) /\ Look("StdCopy", k, NoArg, Val(Slice(Lo(k), Hi(k))))            \* std::copy(a, b, out)
+StdCopyBackward(k) == cfg.std /\ RangeOK(k) /\ Look("StdCopyBackward", k, NoArg, Val(Slice(Lo(k), Hi(k))))    \* std::copy_backward(a, b, out_end)
+StdReverseCopy(k)  == cfg.std /\ RangeOK(k) /\ Look("StdReverseCopy", k, NoArg, Val(Rev(Slice(Lo(k), Hi(k)))))
+StdFind(k, v)      == cfg.std /\ RangeOK(k) /\                                                                  \* std::find_if(a, b, [v](x){ x == v })
+                      Look("StdFind", k, [v |-> v], ItRes(FirstIn(Lo(k), Hi(k), LAMBDA e : e = v)))
+StdCount(k, v)     == cfg.std /\ RangeOK(k) /\
+                      Look("StdCount", k, [v |-> v], Val(Cardinality({x \in Lo(k)..(Hi(k) - 1) : Elem(x) = v})))
+(* std::equal(a, b, c) where c is an iterator of the same kind at position j of the same container *)
+StdEqual(k, j)     == cfg.std /\ RangeOK(k) /\ j \in 0..n /\ j + (Hi(k) - Lo(k)) <= n /\
+                      Look("StdEqual", k, [j |-> j], Val(Slice(Lo(k), Hi(k)) = Slice(j, j + (Hi(k) - Lo(k)))))
+(* std::lower_bound(a, b, v, lexicographic-less): the range must be sorted *)
+StdLowerBound(k, v) == cfg.std /\ RangeOK(k) /\ IsSorted(Slice(Lo(k), Hi(k))) /\
+                      Look("StdLowerBound", k, [v |-> v], ItRes(FirstIn(Lo(k), Hi(k), LAMBDA e : ~TupLt(e, v))))
+(* writers: only the positions of [a, b) change, strides between them keep their elements *)
+InRange(k, x) == (x - 1) % step = 0 /\ ((x - 1) \div step) \in Lo(k)..(Hi(k) - 1)     \* storage index x (1-based) is visited
+StdFill(k, v)      == cfg.std /\ cfg.mut /\ RangeOK(k) /\
+                      Do("StdFill", k, [v |-> v], p, q, [x \in 1..Len(under) |-> IF InRange(k, x) THEN v ELSE under[x]], Void)
+StdReverse(k)      == cfg.std /\ cfg.mut /\ RangeOK(k) /\
+                      Do("StdReverse", k, NoArg, p, q,
+                         [x \in 1..Len(under) |-> IF InRange(k, x) THEN Elem(Lo(k) + Hi(k) - 1 - ((x - 1) \div step)) ELSE under[x]], Void)
+StdSort(k)         == cfg.std /\ cfg.mut /\ cfg.ra /\ RangeOK(k) /\
+                      Do("StdSort", k, NoArg, p, q,
+                         [x \in 1..Len(under) |-> IF InRange(k, x) THEN SortedSeq(Slice(Lo(k), Hi(k)))[((x - 1) \div step) - Lo(k) + 1]
+                                                                   ELSE under[x]], Void)
+
+(* ---- value-initialised iterators (C++14 [forward.iterators]/2): It a{}, b{}; a OP b ---- *)
+ViOps == {"eq", "ne"} \cup (IF cfg.ra THEN {"lt", "le", "gt", "ge"} ELSE {})
+ValueInit(o) == cfg.dc /\ o \in ViOps /\ Look("ValueInit", 1, [o |-> o], Val(o \in {"eq", "le", "ge"}))
+
+(* ---- the public members equal() / less_than() of xstepping_iterator (same stride on both sides) ---- *)
+EqualM(k)    == cfg.stp /\ Look("EqualM", k, NoArg, Val(IEq(Pos(k), Pos(Other(k)))))
+LessThanM(k) == cfg.stp /\ Look("LessThanM", k, NoArg, Val(ILt(Pos(k), Pos(Other(k)))))
+
 (* ---- whole traversals: `how` names the loop that is run ---- *)
 (*   forward: "pre"   for (it = begin(); it != end(); ++it) out( *it )                                          *)
 (*            "post"  it = begin(); while (it != end()) out( *it++ )                                            *)
@@ -152,8 +209,11 @@ IndexWrite(k, d, v) == cfg.mut /\ cfg.ra /\ InD(Pos(k) + d) /\
 (*            "post"  it = end(); while (it != begin()) { it--; out( *it ) }                                    *)
 (*            "gt"    it = end(); while (it > begin()) out( *--it )              (random access)                *)
 (*            "minus" it = end(); while (it != begin()) { it = it - 1; out( *it ) }  (random access)            *)
+(*            "stdrev"    for (std::reverse_iterator<It> r(end()), e(begin()); r != e; ++r) out( *r )   (traits)  *)
+(*            "stdrevidx" r, e as above; for (i = 0; i < e - r; ++i) out(r[i])         (traits, random access)    *)
 FwdHows == {"pre", "post"} \cup (IF cfg.ra THEN {"lt", "index", "plus"} ELSE {})
 RevHows == {"pre", "post"} \cup (IF cfg.ra THEN {"gt", "minus"} ELSE {})
+                           \cup (IF cfg.std THEN {"stdrev"} ELSE {}) \cup (IF cfg.std /\ cfg.ra THEN {"stdrevidx"} ELSE {})
 TraverseForward(how) == how \in FwdHows /\ Look("TraverseForward", 1, [how |-> how], Val(Elems))
 TraverseReverse(how) == how \in RevHows /\ Look("TraverseReverse", 1, [how |-> how], Val(Rev(Elems)))
 
@@ -167,6 +227,11 @@ Seat(i, j, via) == InR(i) /\ InR(j) /\ via \in Vias /\
 Offs == (0 - MaxN)..MaxN
 
 IndexUnder(m, s) == [j \in 1..(m * s) |-> <<j - 1>>]       \* element j holds its own index
+(* values searched for by the model: the element at position j, one below and one above everything stored *)
+FV(j) == IF j < n THEN Elem(j) ELSE IF j = n THEN <<0 - 7>> ELSE <<9999>>
+StdFindJ(k, j)       == j <= n + 1 /\ StdFind(k, FV(j))
+StdCountJ(k, j)      == j <= n + 1 /\ StdCount(k, FV(j))
+StdLowerBoundJ(k, j) == j <= n + 1 /\ StdLowerBound(k, FV(j))
 
 Init ==
     /\ cfg \in Cfgs
@@ -181,12 +246,16 @@ Next ==
     \/ \E k \in {1, 2} :
         \/ PreInc(k) \/ PostInc(k) \/ PreDec(k) \/ PostDec(k) \/ Deref(k) \/ Arrow(k) \/ Eq(k) \/ Ne(k) \/ Assign(k)
         \/ Diff(k) \/ Lt(k) \/ Le(k) \/ Gt(k) \/ Ge(k) \/ StdDistance(k)
+        \/ StdCopy(k) \/ StdCopyBackward(k) \/ StdReverseCopy(k) \/ StdReverse(k) \/ StdSort(k) \/ EqualM(k) \/ LessThanM(k)
+        \/ \E j \in 0..(MaxN + 1) : StdFindJ(k, j) \/ StdCountJ(k, j) \/ StdLowerBoundJ(k, j)
+        \/ \E j \in 0..MaxN : StdEqual(k, j)
         \/ \E d \in Offs : \/ AddAssign(k, d) \/ SubAssign(k, d) \/ Plus(k, d) \/ PlusLeft(k, d) \/ Minus(k, d) \/ Index(k, d)
                            \/ PlusU(k, d) \/ PlusLeftU(k, d) \/ MinusU(k, d) \/ IndexU(k, d)
                            \/ StdAdvance(k, d) \/ StdNext(k, d) \/ StdPrev(k, d)
-        \/ \E v \in WriteVals : Write(k, v) \/ (\E d \in Offs : IndexWrite(k, d, v))
+        \/ \E v \in WriteVals : Write(k, v) \/ (\E d \in Offs : IndexWrite(k, d, v)) \/ StdFill(k, v)
     \/ \E how \in {"pre", "post", "lt", "index", "plus"} : TraverseForward(how)
-    \/ \E how \in {"pre", "post", "gt", "minus"} : TraverseReverse(how)
+    \/ \E how \in {"pre", "post", "gt", "minus", "stdrev", "stdrevidx"} : TraverseReverse(how)
+    \/ \E o \in {"eq", "ne", "lt", "le", "gt", "ge"} : ValueInit(o)
     \/ \E i, j \in 0..MaxN, via \in {"inc", "dec", "add", "sub"} : Seat(i, j, via)
 
 Spec == Init /\ [][Next]_vars
@@ -195,6 +264,10 @@ Spec == Init /\ [][Next]_vars
 (* constraint only lets states with the pristine storage be expanded and writes each           *)
 (* transition out of them (capabilities, pre-state, call) as one JSON line on TLC's output.    *)
 Pristine == under = IndexUnder(n, step)
+(* SpecP: only states with the pristine storage take steps (every action from every (n, step, p, q), one writer step  *)
+(* deep).  Used for the S->C enumeration and for model checking at the larger bounds; the unconstrained Spec with      *)
+(* small bounds covers longer write histories (reverse after fill after sort ...).                                     *)
+SpecP == Init /\ [][Pristine /\ Next]_vars
 Emit == /\ Pristine
         /\ (last'.op \in EmitOps) =>
               PrintT("@E@" \o ToJson([c |-> cfg, p |-> pre', l |-> [op |-> last'.op, k |-> last'.k, a |-> last'.a]]))
@@ -202,11 +275,12 @@ Emit == /\ Pristine
 ----------------------------------------------------------------------------
 (* Invariants and theorems of the specification itself.                      *)
 TypeOK ==
-    /\ cfg \in [ra : BOOLEAN, ext : BOOLEAN, mut : BOOLEAN, std : BOOLEAN]
+    /\ cfg \in [ra : BOOLEAN, ext : BOOLEAN, mut : BOOLEAN, std : BOOLEAN, dc : BOOLEAN, stp : BOOLEAN]
     /\ step \in Nat \ {0}
     /\ n \in Nat /\ Len(under) = n * step
     /\ p \in 0..n /\ q \in 0..n
     /\ cfg.ext => cfg.ra
+    /\ cfg.stp => cfg.ra
 
 (* The law set of the property, over ALL positions a, b of the current container and all       *)
 (* offsets that keep the result in range (not only over the positions the iterators are at).   *)
@@ -237,15 +311,52 @@ PostfixReturnsOld ==
        /\ last'.op = "PostDec" => PosAfter(last'.k) = Pos(last'.k) - 1
        /\ last'.op \in {"PreInc", "PreDec", "AddAssign", "SubAssign"} => last'.res.it.c = PosAfter(last'.k)]_vars
 ObserverOps == {"Deref", "Arrow", "Eq", "Ne", "Diff", "Lt", "Le", "Gt", "Ge", "Plus", "PlusLeft", "Minus", "Index",
-                "PlusU", "PlusLeftU", "MinusU", "IndexU", "StdDistance", "StdNext", "StdPrev", "TraverseForward", "TraverseReverse"}
+                "PlusU", "PlusLeftU", "MinusU", "IndexU", "StdDistance", "StdNext", "StdPrev", "TraverseForward", "TraverseReverse",
+                "StdCopy", "StdCopyBackward", "StdReverseCopy", "StdFind", "StdCount", "StdEqual", "StdLowerBound",
+                "ValueInit", "EqualM", "LessThanM"}
 ObserversPure == [][last'.op \in ObserverOps => p' = p /\ q' = q /\ under' = under]_vars
-OnlyWritesWrite == [][under' # under => last'.op \in {"Write", "IndexWrite", "Reset"}]_vars
+OnlyWritesWrite == [][under' # under => last'.op \in {"Write", "IndexWrite", "StdFill", "StdReverse", "StdSort", "Reset"}]_vars
 (* the size_t overloads give the same result as the difference_type ones *)
 ExtAgrees ==
     [][/\ last'.op = "PlusU"     => last'.res = ItRes(IPlus(Pos(last'.k), last'.a.k))
        /\ last'.op = "PlusLeftU" => last'.res = ItRes(IPlus(Pos(last'.k), last'.a.k))
        /\ last'.op = "MinusU"    => last'.res = ItRes(IMinus(Pos(last'.k), last'.a.k))
        /\ last'.op = "IndexU"    => last'.res = Val(IDeref(IPlus(Pos(last'.k), last'.a.k)))]_vars
+(* the composite actions are what the element-wise laws make of them (guards the oracle: these   *)
+(* characterisations are stated independently of the definitions used in the actions)             *)
+SliceNow(k)  == Slice(Lo(k), Hi(k))
+SliceNext(k) == [x \in 1..(Hi(k) - Lo(k)) |-> under'[(Lo(k) + x - 1) * step + 1]]
+Occ(s, e) == Cardinality({i \in 1..Len(s) : s[i] = e})
+AlgoLaws ==
+    [][LET k == last'.k  o == last'.op  r == last'.res IN
+       /\ o \in {"StdCopy", "StdCopyBackward"} =>
+             Len(r.val) = IDiff(Hi(k), Lo(k)) /\ \A i \in 1..Len(r.val) : r.val[i] = IDeref(IPlus(Lo(k), i - 1))
+       /\ o = "StdReverseCopy" =>
+             Len(r.val) = IDiff(Hi(k), Lo(k)) /\ \A i \in 1..Len(r.val) : r.val[i] = IDeref(IMinus(Hi(k), i))
+       /\ o = "StdFind" =>
+             /\ r.it.c \in Lo(k)..Hi(k)
+             /\ r.it.c < Hi(k) => Elem(r.it.c) = last'.a.v
+             /\ \A y \in Lo(k)..(r.it.c - 1) : Elem(y) # last'.a.v
+       /\ o = "StdCount" => r.val = Occ(SliceNow(k), last'.a.v)
+       /\ o = "StdEqual" => (r.val <=> \A i \in 0..(Hi(k) - Lo(k) - 1) : Elem(Lo(k) + i) = Elem(last'.a.j + i))
+       /\ o = "StdLowerBound" =>
+             /\ r.it.c \in Lo(k)..Hi(k)
+             /\ \A y \in Lo(k)..(r.it.c - 1) : TupLt(Elem(y), last'.a.v)
+             /\ \A y \in r.it.c..(Hi(k) - 1) : ~TupLt(Elem(y), last'.a.v)
+       /\ o = "StdFill" => \A i \in 1..(Hi(k) - Lo(k)) : SliceNext(k)[i] = last'.a.v
+       /\ o = "StdReverse" => SliceNext(k) = Rev(SliceNow(k))
+       /\ o = "StdSort" => /\ IsSorted(SliceNext(k))
+                           /\ \A i \in 1..(Hi(k) - Lo(k)) : Occ(SliceNext(k), SliceNow(k)[i]) = Occ(SliceNow(k), SliceNow(k)[i])
+       /\ o \in {"StdFill", "StdReverse", "StdSort"} =>
+             /\ Len(under') = Len(under) /\ p' = p /\ q' = q
+             /\ \A x \in 1..Len(under) : ~InRange(k, x) => under'[x] = under[x]
+       /\ o = "EqualM" => (r.val <=> IEq(Pos(k), Pos(Other(k))))
+       /\ o = "LessThanM" => (r.val <=> IDiff(Pos(Other(k)), Pos(k)) > 0)]_vars
+(* value-initialised iterators: every comparison is that of two equal positions *)
+ValueInitLaws ==
+    [][last'.op = "ValueInit" =>
+         LET o == last'.a.o IN last'.res.val = (CASE o = "eq" -> IEq(0, 0) [] o = "ne" -> INe(0, 0) [] o = "lt" -> ILt(0, 0)
+                                                  [] o = "le" -> ILe(0, 0) [] o = "gt" -> IGt(0, 0) [] o = "ge" -> IGe(0, 0))]_vars
 (* an iterator result always denotes a position of the range; a dereference never leaves it *)
 ResultsInRange ==
     [][/\ "it" \in DOMAIN last'.res => last'.res.it.c \in 0..n
